@@ -94,6 +94,7 @@ pub fn build_sweep(tier: Tier) -> Vec<IoRun> {
                 pad_to: None,
                 rlimit,
                 litter: Vec::new(),
+                cb_panic_at: None,
                 cwd: 0,
                 crash_at: None,
             }],
@@ -290,6 +291,7 @@ pub fn build_sweep(tier: Tier) -> Vec<IoRun> {
             pad_to: None,
             rlimit: None,
             litter,
+            cb_panic_at: None,
             cwd: 0,
             crash_at,
         };
